@@ -342,3 +342,56 @@ Definition ls_choose (prev : R) (s_als s_jump : St) : St := if Rlt_dec (f s_jump
 Theorem linesearch_descent prev s_als s_jump : f s_als <= prev -> f (ls_choose prev s_als s_jump) <= prev.
 Proof. intros H. unfold ls_choose. destruct (Rlt_dec (f s_jump) prev); lra. Qed.
 End Runs.
+
+(* ---------- generic ridge least-squares block (several right-hand sides) ---------- *)
+Theorem ls_block_minimises (A Y X Z : list (list R)) (lam : R) (m n p : nat) : 0 <= lam ->
+  (forall j c, (j < n)%nat -> (c < p)%nat -> @ls_normal_lhs R Rops A Y X m n j c = lam * @mget R Rops X j c) ->
+  @ls_obj_m R Rops A Y X lam m n p <= @ls_obj_m R Rops A Y Z lam m n p.
+Proof.
+  intros Hl Hne. unfold ls_obj_m. rewrite !gsum_rsum_fun. apply rsum_le; intros c Hc.
+  cbn [fadd fsub fmul Rops].
+  pose proof (normal_eq_minimises m n (fun i j => @mget R Rops A i j) (fun i => @mget R Rops Y i c) lam
+                (fun j => @mget R Rops X j c) (fun j => @mget R Rops Z j c) Hl) as H.
+  unfold ls_obj, Av in H. unfold ls_pred, fsq. rewrite !gsum_rsum_fun. cbn [fmul Rops].
+  assert (E : forall W : list (list R),
+    rsum m (fun i => (@mget R Rops Y i c - rsum n (fun t => @mget R Rops A i t * @mget R Rops W t c)) *
+                     (@mget R Rops Y i c - rsum n (fun t => @mget R Rops A i t * @mget R Rops W t c)))
+    + lam * rsum n (fun j => @mget R Rops W j c * @mget R Rops W j c)
+    = rsum m (fun i => (@mget R Rops Y i c - rsum n (fun j => @mget R Rops A i j * @mget R Rops W j c)) ^ 2)
+    + lam * rsum n (fun j => @mget R Rops W j c ^ 2)).
+  { intros W. f_equal; [|f_equal]; apply rsum_ext; intros; ring. }
+  rewrite !E. apply H. intros j Hj. specialize (Hne j c Hj Hc).
+  unfold ls_normal_lhs, ls_pred in Hne. rewrite !gsum_rsum_fun in Hne. cbn [fsub fmul Rops] in Hne. exact Hne.
+Qed.
+
+(* ---------- classical two-factor Khatri-Rao Gram identity (row k = i*J + j), any commutative ring ---------- *)
+Section KRpair.
+  Variable T : Type.
+  Variables (rO rI : T) (radd rmul rsub : T -> T -> T) (ropp : T -> T).
+  Hypothesis Rth : ring_theory rO rI radd rmul rsub ropp (@eq T).
+  Add Ring Tr : Rth.
+  Definition kr2 (J : nat) (A B : nat -> nat -> T) : nat -> nat -> T := fun k r => rmul (A (k / J)%nat r) (B (k mod J)%nat r).
+  Definition gram2 (n : nat) (K : nat -> nat -> T) (r s : nat) : T := bigsum T rO radd n (fun k => rmul (K k r) (K k s)).
+  Theorem kr_gram_pair I J A B r s : J <> 0%nat ->
+    gram2 (I * J) (kr2 J A B) r s = rmul (gram2 I A r s) (gram2 J B r s).
+  Proof.
+    intros HJ. unfold gram2, kr2. rewrite (bigsum_mul T rO rI radd rmul rsub ropp Rth).
+    rewrite <- (bigsum_scale_r T rO rI radd rmul rsub ropp Rth). apply bigsum_ext; intros i Hi.
+    rewrite <- (bigsum_scale_l T rO rI radd rmul rsub ropp Rth). apply bigsum_ext; intros j Hj.
+    rewrite Nat.div_add_l by exact HJ. rewrite (Nat.div_small j J) by exact Hj. rewrite Nat.add_0_r.
+    rewrite Nat.add_comm, Nat.mod_add by exact HJ. rewrite Nat.mod_small by exact Hj. ring.
+  Qed.
+End KRpair.
+
+(* ---------- CP-ALS run: the objective after each sweep is a non-increasing sequence ---------- *)
+Theorem cp_history_monotone (X : tensor R) (w : list R) (lam : R) (rank : nat)
+  (solve : list (list R) -> list (list R) -> list (list R)) (modes : list nat) (facs : list (list (list R))) (n : nat) :
+  0 <= lam ->
+  run_ok _ (@cp_sweep R Rops solve X w lam rank modes) (sweep_ok X w lam rank solve modes) n facs ->
+  forall i j, (i <= j)%nat -> (j <= n)%nat ->
+  @cp_obj_all R Rops X w (Nat.iter j (@cp_sweep R Rops solve X w lam rank modes) facs) lam rank
+  <= @cp_obj_all R Rops X w (Nat.iter i (@cp_sweep R Rops solve X w lam rank modes) facs) lam rank.
+Proof.
+  intros Hl Hok. apply (history_monotone _ (fun f => @cp_obj_all R Rops X w f lam rank) _ (sweep_ok X w lam rank solve modes)); [|exact Hok].
+  intros s Hs. apply cp_sweep_descent; assumption.
+Qed.
